@@ -76,8 +76,6 @@ def detect(d):
             out["fns"]["handle_message"] = nm
         elif asy and len(sig) == 2 and sig[1] == "core::base_types::NonZero<u16>":
             out["fns"]["ack"] = nm
-        elif asy and len(sig) == 3 and sig[1] == "&mut " + C and sig[2] == "&mut " + S:
-            out["fns"]["retransmit"] = nm
         elif not asy and sig == ["&" + C, "&[u8]"] and ret.startswith("std::result::Result<(), "):
             out["fns"]["validate_packet_size"] = nm
         elif not asy and len(sig) == 2 and sig[0] == "&mut " + C and sig[1] == "&codec::connack::ConnackRx":
